@@ -112,8 +112,11 @@ def main():
         ctl = props.run_controls(work, nonce, rule_ids)
         # selftest corpus (thorough)
         selftest = None
+        sweep = None
         if thorough:
             selftest = props.run_selftest(pid, work)
+            if os.environ.get('MRL_NO_SWEEP') != '1':
+                sweep = props.run_sweep(pid, work)
 
         known = [k for k in load_known() if k.get('property') == pid]
         open_keys = {k['key']: k for k in known if k.get('status') == 'open'}
@@ -188,6 +191,8 @@ def main():
         }
         if selftest is not None:
             ev['coverage']['self_validation'] = selftest
+        if sweep is not None:
+            ev['coverage']['mutation_sweep'] = sweep
         ev['coverage'].update(extra_info)
         os.makedirs(os.path.join(VERIF, 'evidence'), exist_ok=True)
         if '--explain' not in args:   # a replay of one rule instance must not replace the evidence of the full check
